@@ -491,6 +491,39 @@ fn c02_o4i_immutable_glue_probed() {
     std::mem::forget(core);
 }
 
+/// `MutableItem::clone` for the 1-byte values / salts these harnesses use: the boxed slices are
+/// re-created with a concrete length (cloning a boxed slice whose length CBMC reads back from the
+/// heap is a symbolic-size allocation -- tens of GB)
+fn item_clone_1(it: &MutableItem) -> MutableItem {
+    let v: Box<[u8]> = if it.value().is_empty() { Box::new([]) } else { Box::new([it.value()[0]]) };
+    let salt: Option<Box<[u8]>> = match it.salt() {
+        Some(s) => Some(if s.is_empty() { Box::new([]) } else { Box::new([s[0]]) }),
+        None => None,
+    };
+    MutableItem::kani_build(*it.target(), *it.key(), *it.signature(), v, it.seq(), salt)
+}
+
+/// `RequestTypeSpecific::clone` restricted to the lookup kind these harnesses build (GetValue): the
+/// derived clone of an enum that lives on the heap is executed for every variant, boxed token and
+/// value slices of the put variant included (symbolic-size allocations); any other variant here is
+/// a flagged cut
+fn request_type_clone_getvalue(r: &crate::common::RequestTypeSpecific) -> crate::common::RequestTypeSpecific {
+    match r {
+        crate::common::RequestTypeSpecific::GetValue(a) => crate::common::RequestTypeSpecific::GetValue(GetValueRequestArguments {
+            target: a.target,
+            seq: a.seq,
+            salt: match &a.salt {
+                Some(s) => Some(if s.is_empty() { Box::new([]) } else { Box::new([s[0]]) }),
+                None => None,
+            },
+        }),
+        _ => {
+            crate::verif_env::cut();
+            crate::common::RequestTypeSpecific::Ping
+        }
+    }
+}
+
 fn mutable_glue(with_salt: bool) {
     clock::set(0);
     uf::arm(kani::env());
@@ -566,7 +599,7 @@ fn mutable_glue(with_salt: bool) {
 //@ standins: tracing lru vcoll
 //@ desc: get_mutable glue with an earlier authentic item already recorded in the lookup: a later get_mutable response -- whose key, seq and signature bytes symbolically repeat the recorded item's or differ, around any value -- is surfaced and recorded only if MutableItem::from_dht_message was asked about exactly this response (the lookup's target, the response's k, v, seq, sig, the lookup's salt) and accepted it; otherwise nothing surfaces and nothing is recorded; nothing is yielded without verification (a replayed signature around another value included)
 //@ bounds: one lookup (GetValue, no salt) with one recorded item (k = [1;32], sig = [2;64], seq0 symbolic, 1-byte value); one response with symbolic replay bits for key / signature / seq, symbolic 1-byte value, symbolic contract verdicts; tid matches; not read-only; unwind 5, memcmp 66
-//@ stubs: MutableItem::from_dht_message -> contract (leaf C02.O1u/O1s/O1t) with call counter and argument record; MutableItem::target_from_key -> uninterpreted (reached only if the glue builds items itself); IterativeQuery::{response, add_candidate, add_responding_node} -> recording probes; validate_immutable, SignedAnnounce::from_dht_response -> flagged cuts; RoutingTable::add -> probe; Instant::now; getrandom::fill
+//@ stubs: MutableItem::from_dht_message -> contract (leaf C02.O1u/O1s/O1t) with call counter and argument record; <MutableItem as Clone>::clone -> field-wise copy with concrete 1-byte boxes; <RequestTypeSpecific as Clone>::clone -> GetValue variant only (others: flagged cut); MutableItem::target_from_key -> uninterpreted (reached only if the glue builds items itself); IterativeQuery::{response, add_candidate, add_responding_node} -> recording probes; validate_immutable, SignedAnnounce::from_dht_response -> flagged cuts; RoutingTable::add -> probe; Instant::now; getrandom::fill
 //@ functions: Core::handle_response (GetMutable arm), IterativeQuery::{inflight,responses}
 #[kani::proof]
 #[kani::stub(crate::common::immutable::validate_immutable, vi_cut)]
@@ -579,6 +612,8 @@ fn mutable_glue(with_salt: bool) {
 #[kani::stub(crate::core::iterative_query::IterativeQuery::add_responding_node, responder_probe)]
 #[kani::stub(std::time::Instant::now, clock::now)]
 #[kani::stub(getrandom::fill, rnd::fill)]
+#[kani::stub(<crate::common::MutableItem as std::clone::Clone>::clone, item_clone_1)]
+#[kani::stub(<crate::common::RequestTypeSpecific as std::clone::Clone>::clone, request_type_clone_getvalue)]
 #[kani::unwind(5)]
 fn c02_o4m_mutable_glue_probed() {
     mutable_glue(false);
@@ -592,7 +627,7 @@ fn c02_o4m_mutable_glue_probed() {
 //@ standins: tracing lru vcoll
 //@ desc: get_mutable glue with an earlier authentic item already recorded in the lookup: a later get_mutable response -- whose key, seq and signature bytes symbolically repeat the recorded item's or differ, around any value -- is surfaced and recorded only if MutableItem::from_dht_message was asked about exactly this response (the lookup's target, the response's k, v, seq, sig, the lookup's salt) and accepted it; otherwise nothing surfaces and nothing is recorded; nothing is yielded without verification (a replayed signature around another value included)
 //@ bounds: one lookup (GetValue with a one-byte symbolic salt: the salt handed to from_dht_message must be the requested one) with one recorded item (k = [1;32], sig = [2;64], seq0 symbolic, 1-byte value); one response with symbolic replay bits for key / signature / seq, symbolic 1-byte value, symbolic contract verdicts; tid matches; not read-only; unwind 5, memcmp 66
-//@ stubs: MutableItem::from_dht_message -> contract (leaf C02.O1u/O1s/O1t) with call counter and argument record; MutableItem::target_from_key -> uninterpreted (reached only if the glue builds items itself); IterativeQuery::{response, add_candidate, add_responding_node} -> recording probes; validate_immutable, SignedAnnounce::from_dht_response -> flagged cuts; RoutingTable::add -> probe; Instant::now; getrandom::fill
+//@ stubs: MutableItem::from_dht_message -> contract (leaf C02.O1u/O1s/O1t) with call counter and argument record; <MutableItem as Clone>::clone -> field-wise copy with concrete 1-byte boxes; <RequestTypeSpecific as Clone>::clone -> GetValue variant only (others: flagged cut); MutableItem::target_from_key -> uninterpreted (reached only if the glue builds items itself); IterativeQuery::{response, add_candidate, add_responding_node} -> recording probes; validate_immutable, SignedAnnounce::from_dht_response -> flagged cuts; RoutingTable::add -> probe; Instant::now; getrandom::fill
 //@ functions: Core::handle_response (GetMutable arm), IterativeQuery::{inflight,responses}
 #[kani::proof]
 #[kani::stub(crate::common::immutable::validate_immutable, vi_cut)]
@@ -605,6 +640,8 @@ fn c02_o4m_mutable_glue_probed() {
 #[kani::stub(crate::core::iterative_query::IterativeQuery::add_responding_node, responder_probe)]
 #[kani::stub(std::time::Instant::now, clock::now)]
 #[kani::stub(getrandom::fill, rnd::fill)]
+#[kani::stub(<crate::common::MutableItem as std::clone::Clone>::clone, item_clone_1)]
+#[kani::stub(<crate::common::RequestTypeSpecific as std::clone::Clone>::clone, request_type_clone_getvalue)]
 #[kani::unwind(5)]
 fn c02_o4n_mutable_glue_salted() {
     mutable_glue(true);
